@@ -439,3 +439,30 @@ Fixpoint scoped_run (fresh : N -> N -> N) (j : N) (used : list N) (prev : qset) 
         (forall q, In q now <-> In q prev \/ In q (map (sub_stmt f (d_target d)) (d_stmts d))) /\
         scoped_run fresh (N.succ j) (used ++ map f (labels_of (d_stmts d))) now r
   end.
+
+(* ------------------------------------------------------------------ *)
+(* Two runs of the model with two different supplies, related by one correspondence of nodes:
+   a constant or kept label corresponds to itself, the node supply 1 made for (call j, label l)
+   to the node supply 2 made for (call j, label l). *)
+Definition node_rel (f1 f2 : N -> N -> N) (n n' : N) : Prop :=
+  (stable_b n = true /\ n' = n) \/ exists j l, n = f1 j l /\ n' = f2 j l.
+Definition quad_rel (R : N -> N -> Prop) (q q' : quad) : Prop :=
+  R (q_s q) (q_s q') /\ q_p q = q_p q' /\ R (q_o q) (q_o q') /\ R (q_g q) (q_g q').
+Definition store_rel (R : N -> N -> Prop) : qset -> qset -> Prop := Forall2 (quad_rel R).
+Definition env_rel (R : N -> N -> Prop) : env -> env -> Prop :=
+  Forall2 (fun a b => fst a = fst b /\ R (snd a) (snd b)).
+Definition envs_rel (R : N -> N -> Prop) : envs -> envs -> Prop :=
+  Forall2 (fun a b => fst a = fst b /\ env_rel R (snd a) (snd b)).
+Definition obs_rel (R : N -> N -> Prop) : obs_t -> obs_t -> Prop :=
+  Forall2 (fun a b => fst a = fst b /\ store_rel R (snd a) (snd b)).
+
+(* the same correspondence restricted to the (call, label) pairs [U] on which the supplies are known
+   to be injective (for [std_fresh]: labels below LB) *)
+Definition node_rel_on (U : N -> N -> Prop) (f1 f2 : N -> N -> N) (n n' : N) : Prop :=
+  (stable_b n = true /\ n' = n) \/ exists j l, U j l /\ n = f1 j l /\ n' = f2 j l.
+(* every label of the j-th, (j+1)-th, ... document is in U *)
+Fixpoint covers (U : N -> N -> Prop) (j : N) (ds : list doc) : Prop :=
+  match ds with
+  | [] => True
+  | d :: r => (forall l, In l (labels_of (d_stmts d)) -> U j l) /\ covers U (N.succ j) r
+  end.
